@@ -9,8 +9,8 @@ EXTENDS View, Json, IOUtils, TLCExt
 CONSTANT CHECKS
 Rec == ndJsonDeserialize(IOEnv.TRACE)
 
-VARIABLES l, last
-vars == <<l, last>>      \* last : replica -> last logged projection (the previous state)
+VARIABLES l, last, enc
+vars == <<l, last, enc>>      \* last : replica -> last logged projection (the previous state); enc : the scenario's text encoding
 
 On(p) == p \in CHECKS
 E == Rec[l]
@@ -20,9 +20,9 @@ Chk(p, name, cond) ==
   ELSE PrintT(<<"CHECKFAIL", p, name, l>>) /\ FALSE
 
 ChkT(p, name, before, patches, after) ==
-  IF ~On(p) \/ Transforms(before, patches, after) THEN TRUE
+  IF ~On(p) \/ TransformsE(before, patches, after, enc) THEN TRUE
   ELSE /\ PrintT(<<"CHECKFAIL", p, name, l>>)
-       /\ PrintT(<<"PATCHED", Trim(ApplyPatches(ViewOfProj(before), patches))>>)
+       /\ PrintT(<<"PATCHED", Trim(ApplyPatchesE(ViewOfProj(before), patches, enc))>>)
        /\ PrintT(<<"EXPECTED", ViewOfProj(after)>>)
        /\ FALSE
 
@@ -31,6 +31,7 @@ HasView == "obs" \in DOMAIN E /\ "view" \in DOMAIN E.obs
 
 Step ==
   /\ l <= Len(Rec) /\ l' = l + 1
+  /\ enc' = IF E.ev = "reset" /\ "enc" \in DOMAIN E /\ E.enc \in {"u8", "u16"} THEN E.enc ELSE IF E.ev = "reset" THEN "cp" ELSE enc
   /\ IF E.ev = "reset" THEN last' = <<>>
      ELSE IF E.ev = "diff" THEN
           /\ ChkT("C08", "diff-transforms-state-at-H1-into-state-at-H2", E.v1, E.patches, E.v2)
@@ -53,7 +54,7 @@ Step ==
           /\ last' = (E.r :> E.obs.view) @@ last
      ELSE UNCHANGED last
 
-Init == l = 1 /\ last = <<>>
+Init == l = 1 /\ last = <<>> /\ enc = "cp"
 Spec == Init /\ [][Step]_vars
 
 Accepted ==
